@@ -43,9 +43,9 @@ pub fn offset_to_location<const S: usize>(file: &str, offsets: &[u32; S]) -> [Co
 	let mut out = [CodeLocation::default(); S];
 	let mut with_no_known_line_ending = vec![];
 	let mut this_line_offset = 0;
+	// Offsets are byte offsets (as spans are), columns are counted in characters
 	for (pos, ch) in file
-		.chars()
-		.enumerate()
+		.char_indices()
 		.chain(std::iter::once((file.len(), ' ')))
 	{
 		column += 1;
@@ -75,7 +75,7 @@ pub fn offset_to_location<const S: usize>(file: &str, offsets: &[u32; S]) -> [Co
 			}
 		}
 	}
-	let file_end = file.chars().count();
+	let file_end = file.len();
 	for idx in with_no_known_line_ending {
 		out[idx].line_end_offset = file_end;
 	}
